@@ -392,6 +392,9 @@ pub fn tweaks(c: &str) -> Vec<(&'static str, String)> {
         }
     }
     if c.starts_with('/') {
+        // a bare slash where a party identifier / account is expected
+        let rest = c.split_once('\n').map(|x| x.1).unwrap_or("");
+        v.push(("bare-slash-first-line", if rest.is_empty() { "/".to_string() } else { format!("/\n{rest}") }));
         v.push(("no-leading-slash", c[1..].to_string()));
     } else {
         v.push(("added-leading-slash", format!("/{c}")));
